@@ -18,6 +18,8 @@
 (*   store-twice      no slot is written twice                       (C04) *)
 (*   redefinition     no name is bound twice and no formal or template     *)
 (*                    local is rebound by a model name          (C19, C02) *)
+(*   scheme-guard     the exponential update is selected by |linearisation| >  *)
+(*                    delta (the delta passed), strictly; else Euler        *)
 (*   scheme-choice    a Rush-Larsen scheme uses the exponential update for  *)
 (*                    exactly the requested stiff states whose rate depends *)
 (*                    on themselves                                  (C07) *)
@@ -93,6 +95,24 @@ SchemeChoiceOk(ev) ==
             usesLin == \E u \in ToSet(ev.uses) : u = T.lin[d]
         IN wantRL = usesLin
 
+\* C06: where the exponential update is used it sits behind the guard: the selection is on the linearisation
+\* alone, against the delta the caller passed and nothing else, strictly (|g| = delta takes the Euler branch);
+\* the exponential branch divides by the linearisation, the other branch is the Euler update and does not read it
+SchemeGuardOk(ev) ==
+  IF T.kind # "scheme" \/ ~T.check_choice \/ T.delta = "" THEN TRUE ELSE
+  \A d \in ToSet(ev.uses) :
+     (Has(T.derivs, d) /\ Has(T.state_index, T.derivs[d]) /\ T.state_index[T.derivs[d]] = ev.slot) =>
+        LET x == T.derivs[d]
+            wantRL == (T.all_stiff \/ x \in ToSet(T.stiff)) /\ x \notin ToSet(T.zero_slope)
+            g == ev.guard
+        IN wantRL => /\ g.present
+                     /\ ToSet(g.cond_uses) = {T.lin[d]}
+                     /\ ToSet(g.consts) = {T.delta}
+                     /\ g.strict
+                     /\ T.lin[d] \in ToSet(g.then_uses)
+                     /\ T.lin[d] \notin ToSet(g.else_uses)
+                     /\ d \in ToSet(g.else_uses)
+
 RuleFails(ev) ==
      (IF ~(Reads(ev) \subseteq defined) THEN {"use-before-def"} ELSE {})
   \cup (IF ~UnpackOk(ev) THEN {"unpack-slot"} ELSE {})
@@ -100,6 +120,7 @@ RuleFails(ev) ==
   \cup (IF ev.k = "store" /\ ~StoreOk(ev) THEN {"store-slot"} ELSE {})
   \cup (IF ev.k = "store" /\ ev.slot \in ToSet(stored) THEN {"store-twice"} ELSE {})
   \cup (IF ev.k = "store" /\ ~SchemeChoiceOk(ev) THEN {"scheme-choice"} ELSE {})
+  \cup (IF ev.k = "store" /\ SchemeChoiceOk(ev) /\ ~SchemeGuardOk(ev) THEN {"scheme-guard"} ELSE {})
   \cup (IF ev.k = "store" /\ T.needs_alloc /\ "values" \notin defined THEN {"store-before-alloc"} ELSE {})
   \cup (IF ev.k = "return" /\ T.expect_n >= 0 /\ ~(ToSet(stored) = 0..(T.expect_n - 1) /\ Len(stored) = T.expect_n) THEN {"lengths-stored"} ELSE {})
   \cup (IF ev.k = "return" /\ T.expect_n >= 0 /\ ev.nret >= 0 /\ ev.nret # T.expect_n THEN {"lengths-returned"} ELSE {})
